@@ -1,4 +1,282 @@
-import QipVerif.Model.Grid
-/-! C14 — property theorems (in progress) -/
+import QipVerif.Lemmas.GridMerge
+/-!
+# C14 — pulse evolution is the time-ordered propagator of the stated Hamiltonian
+
+Property theorems only (resampling logic; the solver part is numerical and checked by the
+correspondence, see notes/C14.md).  `Grid.fullTlist` models `Processor.get_full_tlist`,
+`Grid.fill` the step branch of `pulse._fill_coeff`, `Grid.fullCoeffs` `get_full_coeffs`;
+`Grid.stepAt tl cs t` is the specification object: the step function of a channel (value of
+the slot of `tl` containing `t`, `0` before the first and from the last grid point on).
+All statements are exact (`Rat`) and hold for every tolerance `tol ≥ 0`.
+-/
 namespace QipVerif.C14
+open QipVerif.Grid
+
+/-- channel grids as the property quantifies them: strictly increasing, starting at 0, at least one slot -/
+def GoodGrid (g : List Rat) : Prop := g.Pairwise (· < ·) ∧ g.head? = some 0 ∧ 2 ≤ g.length
+
+/-- **Merged grid, unconditionally**: whatever the channel grids are (unsorted, duplicated, near-duplicates),
+the merged grid is strictly increasing, consecutive points differ by more than `tol`, and every point of it
+is a point of some channel. -/
+theorem merged_strict (tol : Rat) (grids : List (List Rat)) (T : List Rat) (h : fullTlist tol grids = some T) :
+    T.Pairwise (· < ·) ∧ GapsGt tol T ∧ ∀ t ∈ T, ∃ g ∈ grids, t ∈ g :=
+  ⟨fullTlist_pairwise h, fullTlist_gaps h, fullTlist_subset h⟩
+
+example : fullTlist (1/10) [[0, 1, 2], [0, 3/2, 41/20, 3]] = some [0, 1, 3/2, 2, 3] := by decide +kernel
+
+/-- **Merged grid contains every channel point** when distinct points of the channels are more than `tol`
+apart (`SepAll`): it is exactly the sorted duplicate-free union. -/
+theorem merged_contains (tol : Rat) (grids : List (List Rat)) (hne : grids ≠ []) (hsep : SepAll tol grids) :
+    ∃ T, fullTlist tol grids = some T ∧ T.Pairwise (· < ·) ∧
+      (∀ g ∈ grids, ∀ x ∈ g, x ∈ T) ∧ (∀ t ∈ T, ∃ g ∈ grids, t ∈ g) := by
+  refine ⟨sortU grids.flatten, fullTlist_eq_sortU hne hsep, sortU_pairwise _, ?_, ?_⟩
+  · intro g hg x hx; rw [mem_sortU, List.mem_flatten]; exact ⟨g, hg, hx⟩
+  · intro t ht; rw [mem_sortU, List.mem_flatten] at ht; exact ht
+
+example : SepAll (1/10) [[0, 1, 2], [0, 3/2, 3]] := by
+  intro g hg x hx g' hg' y hy hxy
+  simp only [List.mem_cons, List.not_mem_nil, or_false] at hg hg'
+  rcases hg with rfl | rfl <;> rcases hg' with rfl | rfl <;>
+    simp only [List.mem_cons, List.not_mem_nil, or_false] at hx hy <;>
+    rcases hx with rfl | rfl | rfl <;> rcases hy with rfl | rfl | rfl <;> revert hxy <;> decide +kernel
+
+/-- **What the resampling returns, in general** (no assumption on the last coefficient): at every merged
+point the value of the channel's slot containing it — except that at the channel's *final* grid point it
+returns the last entry of the padded coefficient array (`codeAt`).  Induction over the merged grid with the
+invariant "`old_ind` is the slot containing the current point". -/
+theorem fill_eq_code (tol : Rat) (grids : List (List Rat)) (T tl cs : List Rat) (htol : 0 ≤ tol)
+    (hgr : ∀ g ∈ grids, GoodGrid g) (hsep : SepAll tol grids) (hmem : tl ∈ grids)
+    (hT : fullTlist tol grids = some T)
+    (hlen : cs.length + 1 = tl.length ∨ cs.length = tl.length) :
+    fill tol tl cs T = .ok (T.map (codeAt tl (padCoeff tl cs))) := by
+  have hne : grids ≠ [] := by intro h; simp [h] at hmem
+  have hTeq : T = sortU grids.flatten := by
+    have := fullTlist_eq_sortU hne hsep; rw [hT] at this; exact Option.some.inj this
+  have hTp : T.Pairwise (· < ·) := fullTlist_pairwise hT
+  obtain ⟨hp, hh, hl⟩ := hgr tl hmem
+  have hmemT : ∀ t ∈ T, ∃ g ∈ grids, t ∈ g := fullTlist_subset hT
+  have hnonneg : ∀ t ∈ T, (0 : Rat) ≤ t := by
+    intro t ht
+    obtain ⟨g, hg, htg⟩ := hmemT t ht
+    obtain ⟨hgp, hgh, hgl⟩ := hgr g hg
+    match g, hgh with
+    | a :: rest, hgh =>
+      simp at hgh; subst hgh
+      rcases List.mem_cons.mp htg with rfl | h
+      · exact Rat.le_refl
+      · exact Rat.le_of_lt ((List.pairwise_cons.mp hgp).1 t h)
+  apply Grid.fill_eq_code tol tl cs T htol hp hl hlen hTp
+  · intro p hpm; rw [hTeq, mem_sortU, List.mem_flatten]; exact ⟨tl, hmem, hpm⟩
+  · intro t ht first hf; rw [hh] at hf; cases hf; exact hnonneg t ht
+  · intro t ht p hpm
+    obtain ⟨g, hg, htg⟩ := hmemT t ht
+    have htri : p < t ∨ p = t ∨ t < p := by grind
+    rcases htri with h | h | h
+    · right; right; exact hsep tl hmem p hpm g hg t htg h
+    · left; exact h
+    · right; left; exact hsep g hg t htg tl hmem p hpm h
+
+/-- **fill_eq_step.** For channels with strictly increasing grids starting at 0 whose points are more than
+`tol` apart, a channel with one coefficient per slot (or a full-length array ending in 0): the coefficient
+resampled at every merged point `T_k` is the channel's step function at `T_k` — the value of the slot
+containing it, and 0 from the channel's last grid point on. -/
+theorem fill_eq_step (tol : Rat) (grids : List (List Rat)) (T tl cs : List Rat) (htol : 0 ≤ tol)
+    (hgr : ∀ g ∈ grids, GoodGrid g) (hsep : SepAll tol grids) (hmem : tl ∈ grids)
+    (hT : fullTlist tol grids = some T) (hz : LastZero tl cs) :
+    fill tol tl cs T = .ok (T.map (stepAt tl cs)) := by
+  have hlen : cs.length + 1 = tl.length ∨ cs.length = tl.length := by
+    rcases hz with h | ⟨h, _⟩
+    · exact Or.inl h
+    · exact Or.inr h
+  rw [fill_eq_code tol grids T tl cs htol hgr hsep hmem hT hlen]
+  congr 1
+  apply List.map_congr_left
+  intro t _
+  exact codeAt_eq_stepAt tl cs (hgr tl hmem).1 hz t
+
+-- non-vacuity: two channels ending at different times, one coefficient per slot
+example : (fill (1/10) [0, 1] [2] [0, 1, 3/2, 2]).toOption = some [2, 0, 0, 0] ∧
+    (fill (1/10) [0, 3/2, 2] [1/2, 1/4] [0, 1, 3/2, 2]).toOption = some [1/2, 1/2, 1/4, 0] ∧
+    [0, 1, 3/2, 2].map (stepAt [0, 3/2, 2] [1/2, 1/4]) = [1/2, 1/2, 1/4, 0] := by decide +kernel
+
+/-- **The full statement is false for full-length coefficients** (`len(coeff) == len(tlist)`) whose last
+entry is not 0: channel A `tlist [0,1]`, `coeff [2, 3/4]` next to a channel ending at 2 — the resampled
+row holds `3/4` at `t = 1`, i.e. on the merged slot `[1, 3/2)`, although A's grid has ended
+(its step function is 0 there).  `run_analytically` uses exactly these rows. -/
+theorem leak_counterexample :
+    (fullCoeffs (1/10000000000) [.arr [0, 1] [2, 3/4], .arr [0, 3/2, 2] [1/2, 1/4]]).toOption
+        = some ([0, 1, 3/2, 2], [[2, 3/4, 0, 0], [1/2, 1/2, 1/4, 0]])
+      ∧ stepAt [0, 1] [2, 3/4] 1 = 0
+      ∧ ¬ ((fill (1/10000000000) [0, 1] [2, 3/4] [0, 1, 3/2, 2]).toOption
+            = some ([0, 1, 3/2, 2].map (stepAt [0, 1] [2, 3/4]))) := by
+  decide +kernel
+
+/-- **piecewise_constant.** Between two consecutive merged points no channel changes its value: for every
+`t` in `[T_k, T_{k+1})` the step function of a channel whose grid points all belong to `T` equals its value
+at `T_k`.  Hence `H(t) = drift + Σ_m c_m(T_k) H_m` on the whole slot, and the ordered product of the slice
+exponentials is the time-ordered exponential (trusted analytic fact). -/
+theorem piecewise_constant (T tl cs : List Rat) (hT : T.Pairwise (· < ·)) (hsub : ∀ p ∈ tl, p ∈ T)
+    (k : Nat) (hk : k + 1 < T.length) (t : Rat) (h1 : T[k] ≤ t) (h2 : t < T[k + 1]) :
+    stepAt tl cs t = stepAt tl cs T[k] :=
+  stepAt_const tl cs T[k] T[k + 1] t (fun p hp => not_between hT k hk p (hsub p hp)) h1 h2
+
+example : stepAt [0, 3/2, 2] [1/2, 1/4] (5/4) = stepAt [0, 3/2, 2] [1/2, 1/4] 1 := by decide +kernel
+
+/-- **get_full_coeffs** for array channels: the merged grid together with, for every channel, its step
+function sampled on the merged grid. -/
+theorem fullCoeffs_eq (tol : Rat) (chans : List (List Rat × List Rat)) (htol : 0 ≤ tol) (hne : chans ≠ [])
+    (hgr : ∀ c ∈ chans, GoodGrid c.1) (hz : ∀ c ∈ chans, LastZero c.1 c.2)
+    (hsep : SepAll tol (chans.map (·.1))) :
+    fullCoeffs tol (chans.map fun c => Chan.arr c.1 c.2) =
+      .ok (sortU (chans.map (·.1)).flatten,
+           chans.map fun c => (sortU (chans.map (·.1)).flatten).map (stepAt c.1 c.2)) := by
+  have hgrids : ∀ l : List (List Rat × List Rat),
+      (l.map fun c => Chan.arr c.1 c.2).filterMap Chan.grid? = l.map (·.1) := by
+    intro l; induction l <;> simp_all [Chan.grid?]
+  have hne' : chans.map (·.1) ≠ [] := by simpa using hne
+  have hT := fullTlist_eq_sortU hne' hsep
+  have hvalid : valid (chans.map fun c => Chan.arr c.1 c.2) = true := by
+    simp only [valid, List.all_map, List.all_eq_true]
+    intro c hc
+    rcases hz c hc with h | ⟨h, _⟩
+    · simp; left; omega
+    · simp [h]
+  unfold fullCoeffs
+  rw [hvalid]
+  simp only [Bool.not_true, Bool.false_eq_true, if_false, procTlist, hgrids chans, hT]
+  rw [mapMExcept_ok _
+    (fun (ch : Chan) => match ch with
+      | .arr tl cs => (sortU (chans.map (·.1)).flatten).map (stepAt tl cs)
+      | _ => [])
+    (chans.map fun c => Chan.arr c.1 c.2)
+    (by
+      intro a ha
+      obtain ⟨c, hc, rfl⟩ := List.mem_map.mp ha
+      simp only
+      exact fill_eq_step tol (chans.map (·.1)) _ c.1 c.2 htol
+        (fun g hg => by obtain ⟨c', hc', rfl⟩ := List.mem_map.mp hg; exact hgr c' hc')
+        hsep (List.mem_map.mpr ⟨c, hc, rfl⟩) hT (hz c hc))]
+  simp [List.map_map, Function.comp_def]
+
+/-- **Reload is a fixed point**: a channel given on the merged grid with a full-length coefficient array
+(what `read_coeff` installs) resamples to itself. -/
+theorem reload_fixed_point (tol : Rat) (T cs : List Rat) (htol : 0 ≤ tol) (hT : T.Pairwise (· < ·))
+    (hlen : 2 ≤ T.length) (hcs : cs.length = T.length)
+    (hgap : ∀ x ∈ T, ∀ y ∈ T, x < y → y - x > tol) (hge : ∀ t ∈ T, ∀ first, T.head? = some first → first ≤ t) :
+    fill tol T cs T = .ok cs := by
+  rw [Grid.fill_eq_code tol T cs T htol hT hlen (Or.inr hcs) hT (fun p hp => hp) hge
+    (fun t ht p hp => by
+      have htri : p < t ∨ p = t ∨ t < p := by grind
+      rcases htri with h | h | h
+      · right; right; exact hgap p hp t ht h
+      · left; exact h
+      · right; left; exact hgap t ht p hp h)]
+  congr 1
+  have hpad : padCoeff T cs = cs := by unfold padCoeff; rw [if_neg (by omega)]
+  rw [hpad]
+  apply List.ext_getElem (by simp [hcs])
+  intro k h1 h2
+  simp only [List.getElem_map]
+  have hk : k < T.length := by simpa using h1
+  unfold codeAt
+  have hn : T.length - 1 < T.length := by omega
+  by_cases hl : T.getLast? = some T[k]
+  · rw [if_pos hl]
+    rw [List.getLast?_eq_getElem?, List.getElem?_eq_getElem hn] at hl
+    have hidx : k = T.length - 1 := by
+      rcases Nat.lt_or_ge k (T.length - 1) with h | h
+      · exfalso; have := lt_of_pairwise hT hk hn h; have := Option.some.inj hl; grind
+      · omega
+    rw [List.getLast?_eq_getElem?, List.getElem?_eq_getElem (by omega)]
+    simp only [Option.getD_some]; congr 1; omega
+  · rw [if_neg hl]
+    have hk1 : k + 1 < T.length := by
+      rcases Nat.lt_or_ge (k + 1) T.length with h | h
+      · exact h
+      · exfalso; apply hl
+        rw [List.getLast?_eq_getElem?, List.getElem?_eq_getElem hn]; congr 2; omega
+    exact stepAt_slot T cs T[k] hT k hk1 (by omega) Rat.le_refl (lt_of_pairwise hT hk hk1 (by omega))
+
+example : (fill (1/10) [0, 1, 3/2, 2] [2, 3/4, 1/2, 0] [0, 1, 3/2, 2]).toOption = some [2, 3/4, 1/2, 0] := by
+  decide +kernel
+
+/-- **save/read round trip on labels**: the label list `read_coeff` reconstructs from the header line that
+`save_coeff` writes is the list of pulse labels, provided no label contains the separator `;` or a newline
+(tokens stand for characters; `#`, space and `;` differ from newline). -/
+theorem save_read_labels {α : Type} [DecidableEq α] (hash space nl semi : α) (inctime : Bool)
+    (labels : List (List α)) (hne : labels ≠ [])
+    (hsemi : ∀ l ∈ labels, semi ∉ l) (hnl : ∀ l ∈ labels, nl ∉ l)
+    (h1 : hash ≠ nl) (h2 : space ≠ nl) (h3 : semi ≠ nl) :
+    readLabels semi inctime (firstLine nl (headerLine hash space nl semi inctime labels)) = labels := by
+  have hjoin : nl ∉ joinSep semi labels := by
+    clear hne hsemi
+    induction labels with
+    | nil => simp [joinSep]
+    | cons l ls ih =>
+      cases ls with
+      | nil => simpa [joinSep] using hnl l (by simp)
+      | cons l2 ls =>
+        have : joinSep semi (l :: l2 :: ls) = l ++ semi :: joinSep semi (l2 :: ls) := rfl
+        rw [this]
+        simp only [List.mem_append, List.mem_cons, not_or]
+        exact ⟨hnl l (by simp), fun h => h3 h.symm, ih (fun x hx => hnl x (by simp [hx]))⟩
+  have htw : ∀ (body : List α), nl ∉ body → firstLine nl ([hash, space] ++ body ++ [nl]) = [hash, space] ++ body ++ [nl] := by
+    intro body hb
+    unfold firstLine
+    have : ([hash, space] ++ body ++ [nl]).takeWhile (· ≠ nl) = [hash, space] ++ body := by
+      rw [List.takeWhile_append_of_pos]
+      · simp
+      · intro x hx
+        simp only [List.mem_append, List.mem_cons, List.not_mem_nil, or_false] at hx
+        rcases hx with (rfl | rfl) | hx
+        · simpa using h1
+        · simpa using h2
+        · simp; intro h; exact hb (h ▸ hx)
+    rw [this]
+  have hbody : ∀ body : List α, (([hash, space] ++ body ++ [nl]).drop 2).dropLast = body := by
+    intro body; simp
+  unfold headerLine readLabels
+  cases inctime with
+  | true =>
+    simp only [if_true]
+    rw [htw (semi :: joinSep semi labels) (by simp [hjoin]; exact fun h => h3 h.symm), hbody]
+    have : semi :: joinSep semi labels = [] ++ semi :: joinSep semi labels := rfl
+    rw [this, splitSep_append semi [] _ (by simp), splitSep_joinSep semi labels hne hsemi]
+    rfl
+  | false =>
+    simp only [Bool.false_eq_true, if_false]
+    rw [htw (joinSep semi labels) hjoin, hbody]
+    exact splitSep_joinSep semi labels hne hsemi
+
+example : readLabels 59 true (firstLine 10 (headerLine 35 32 10 59 true [[97, 98], [99]])) = [[97, 98], [99]] := by decide
+
+/-- **save/read round trip on shape**: with at least two time points, every pulse gets back an array with
+one entry per merged time point — provided the table has more than one column (`inctime` or ≥ 2 pulses). -/
+theorem save_read_shape (inctime : Bool) (rows n i : Nat) (hr : 2 ≤ rows) (hi : i < n)
+    (hc : inctime = true ∨ 2 ≤ n) : readCoeffLen inctime rows n i = some rows := by
+  have hshape : ∀ c, c ≠ 1 → loadShape rows c = [rows, c] := by
+    intro c hc
+    unfold loadShape
+    rw [List.filter_cons_of_pos (by simp; omega), List.filter_cons_of_pos (by simpa using hc)]; rfl
+  unfold readCoeffLen
+  cases inctime with
+  | true =>
+    simp only [if_true]
+    rw [hshape (n + 1) (by omega)]
+    simp [hi]
+  | false =>
+    have h2 : n ≠ 1 := by
+      rcases hc with h | h
+      · cases h
+      · omega
+    simp only [Bool.false_eq_true, if_false]
+    rw [hshape n h2]
+    simp [hi]
+
+/-- … and it is lost for a single pulse saved without the time column: `np.loadtxt` squeezes the one-column
+table and `coeffs[0]` is a scalar. -/
+theorem save_read_shape_counterexample (rows : Nat) : readCoeffLen false rows 1 0 = none := by
+  unfold readCoeffLen loadShape
+  by_cases h : rows = 1 <;> simp [List.filter, h]
+
 end QipVerif.C14
